@@ -160,7 +160,31 @@ def gen_C05(rnd, n, tier):
         a = ctrl_case(body, list(g.labels), True); b = ctrl_case(body, list(g.labels), False)
         a.group = b.group = i
         out += [a, b]
+        if i % 4 == 0:
+            # whole files with hoisted data (repeated contents under several string types, movements,
+            # marts, map scripts): both orders must define the same data under the same labels
+            from cases_data import TopGen
+            tg = TopGen(rnd, tier); src = tg.gen(rnd.randint(2, 5))
+            for opt in (True, False):
+                cfg = base_cfg(optimize=opt)
+                out.append(Case(compile_line(cfg, src), src, cfg, {"top": tg, "opt": opt}, group=("t", i)))
     return out
+
+def data_blocks(text):
+    """label line -> the directive lines that follow it, for every block that is data (texts,
+    movements, marts, map script headers and tables, raw data)."""
+    blocks = {}; pending = []; cur = None
+    for ln in text.split("\n"):
+        if ln.startswith("# "): continue
+        if re.match(r"^[^\s:]+::?$", ln):
+            pending.append(ln); continue
+        if pending:
+            cur = []
+            for l in pending: blocks[l] = cur      # stacked labels denote the same block
+            pending = []
+        if ln.startswith("\t") and cur is not None: cur.append(ln)
+        elif not ln.strip(): cur = None
+    return {k: v for k, v in blocks.items() if v and all(re.match(r"^\t(\.|map_script|walk_|face_|delay_|step_end)", x) for x in v)}
 
 def goto_next_or_orphan(text, name):
     """Textual half of C05: no generated goto to the label on the very next line, no generated
@@ -183,6 +207,12 @@ def goto_next_or_orphan(text, name):
 def oracle_C05_pair(ca, ra, cb, rb):
     if ra["kind"] != rb["kind"]: return "optimized and unoptimized disagree on acceptance: %s vs %s" % (ra["kind"], rb["kind"])
     if ra["kind"] != "OK": return None
+    if "top" in ca.meta:
+        da = data_blocks(ra["text"]); db = data_blocks(rb["text"])
+        if da != db:
+            diff = sorted(k for k in set(da) | set(db) if da.get(k) != db.get(k))
+            return "optimized and unoptimized output define different data under %s" % ", ".join(diff[:3])
+        return None
     for c, r in ((ca, ra), (cb, rb)):
         e = goto_next_or_orphan(r["text"], c.meta["name"])
         if e: return ("optimize=%s: " % c.meta["opt"]) + e
